@@ -268,6 +268,17 @@ def main_check(plugin, tier, replay=None):
     if not ok:
         log("C++ build of the working tree failed:\n" + blog[-3000:])
         return 2
+    # a decision point the translator can no longer find in the source: the tie theorem for it checks a pinned
+    # value, not the code -> that obligation no longer checks (search for a failing input, report either way)
+    tie_alias = {"rtNextShape": "rtNextIsMinOfTargetAndMaxWallNext"}
+    for th in plugin.THEOREMS:
+        if th.startswith("HgVerif.Tie.tie_"):
+            key = th[len("HgVerif.Tie.tie_"):]
+            item = (extracted.get("common") or {}).get(tie_alias.get(key, key))
+            if item is not None and item.get("status") == "pattern-missing":
+                broken.append({"kind": "translator", "name": th,
+                               "detail": "the source pattern this tie is extracted from is no longer found in /repo"})
+                log("translator: pattern for %s no longer found -> the tie no longer checks; searching for a failing input" % th)
     ok, llog = build_lean(plugin.LEAN_MODULES)
     if not ok:
         errs = [l for l in llog.split("\n") if "error" in l][:8]
